@@ -20,7 +20,7 @@ EXHAUSTIVE = True
 SHARDS = {"quick": 8, "thorough": 16}
 DEADLINE = {"quick": 50, "thorough": 420}
 REQUIRED = {"layout:calls": 2000, "layout:class:plain": 100, "layout:class:one-child": 500, "layout:repeat-compared": 500,
-            "layout:mirror-compared": 500, "inv:y": 1000, "inv:bounds": 1000, "layout:subtree-with-parent": 200, "layout:default-units-after-explicit-ones": 200, "layout:detached-subtree": 200, "layout:ids:same": 100, "layout:ids:eq-by-value": 100, "layout:ids:pool3": 100, "layout:ids:clone": 100, "inv:centre": 500, "inv:sep": 500}
+            "layout:mirror-compared": 500, "inv:y": 1000, "inv:bounds": 1000, "layout:subtree-with-parent": 200, "layout:default-units-after-explicit-ones": 200, "layout:measure-then-edit-then-layout": 200, "layout:detached-subtree": 200, "layout:ids:same": 100, "layout:ids:eq-by-value": 100, "layout:ids:pool3": 100, "layout:ids:clone": 100, "inv:centre": 500, "inv:sep": 500}
 EPS = 1e-9
 
 
@@ -209,6 +209,28 @@ def drive_shape(rec, s, units, fac=None, ids="fresh"):
                 rec.arm("layout:default-units-after-explicit-ones")
             except Exception:
                 pass
+        if _SHARED["n"] % 4 == 2:
+            # the two phases are public too: measure() alone (someone only wants levels and offsets),
+            # then the tree is edited in place, then a complete layout on the same object
+            try:
+                lay = _SHARED["obj"]
+                lay.measure(t)
+                inner2 = [n for n in S.nodes_preorder(t) if n.parent is not None]
+                if inner2 and ids != "eq-by-value":   # (rotate compares nodes with ==: not for value-equal nodes)
+                    inner2[(_SHARED["n"] // 4) % len(inner2)].rotate()
+                    t = S.root_of(t)
+                lay.layout(t, ux, uy)
+                rec.arm("layout:measure-then-edit-then-layout")
+                t = W9.build(s, fac)
+                if ids == "clone":
+                    t = t.clone()
+                lay.layout(t, ux, uy)
+            except Exception:
+                t = W9.build(s, fac)
+                try:
+                    _SHARED["obj"].layout(t, ux, uy)
+                except Exception:
+                    continue
         if _SHARED["n"] % 5 == 0:
             # the measurement handed out is the caller's: scribbled on before the next layout
             try:
